@@ -188,8 +188,8 @@ def check(ctx: Ctx) -> None:
             ctx.ob("C12.evaluators", f"{text}@{asg}", True, "")
     ctx.units["evaluator_mix_runs"] = len(results)
     # ---- sweeps under reversed schedules
-    ahbsweep.report(ctx, ("C12.order",), "src/ahbicht/expressions/ahb_expression_evaluation.py")
-    valsweep.report(ctx, ("C12.order",))
+    ctx.soft(lambda: ahbsweep.report(ctx, ("C12.order",), "src/ahbicht/expressions/ahb_expression_evaluation.py"))
+    ctx.soft(lambda: valsweep.report(ctx, ("C12.order",)))
     from .c10 import COND_CASES, PACKAGES, expected, observed, run_resolver
 
     for text in COND_CASES[:10] + ["[1P] U [2P] U [3P] U [6P]"]:
@@ -233,13 +233,13 @@ def check(ctx: Ctx) -> None:
     for sub, call in inner:
         ev = [n.lineno for n in ast.walk(sub.node) if isinstance(n, ast.Await)]
         ctx.ob("C12.ctx", "setter-before-await", bool(ev) and call.lineno < min(ev), "the setter does not precede the awaited evaluation", file=ive.file, line=call.lineno, function=sub.qualname)
-    check_path(ctx, "C12.state", ["ahbicht.expressions.ahb_expression_evaluation.evaluate_ahb_expression_tree", "ahbicht.content_evaluation.is_valid_expression",
+    ctx.soft(lambda: check_path(ctx, "C12.state", ["ahbicht.expressions.ahb_expression_evaluation.evaluate_ahb_expression_tree", "ahbicht.content_evaluation.is_valid_expression",
                                   "ahbicht.expressions.expression_resolver.parse_expression_including_unresolved_subexpressions"],
                "evaluation results must not depend on other (concurrent or earlier) evaluations",
                extra_classes=["ahbicht.content_evaluation.evaluators.Evaluator", "ahbicht.expressions.hints_provider.HintsProvider",
-                              "ahbicht.expressions.package_expansion.PackageResolver"])
+                              "ahbicht.expressions.package_expansion.PackageResolver"]))
     from ..purity import check_models_and_transformers
 
-    check_models_and_transformers(ctx, "C12.state", "evaluation must not depend on earlier evaluations")
+    ctx.soft(lambda: check_models_and_transformers(ctx, "C12.state", "evaluation must not depend on earlier evaluations"))
     ctx.assume("L5 (gather: argument order, own task/context copy per coroutine), L6 (inject.params resolves the provider at call time in the calling task)")
     ctx.assume("user-supplied evaluators that share state among themselves are outside the property")
